@@ -334,9 +334,16 @@ class Ctx:
         groups = []
         for l in lines:
             ev = json.loads(l)
+            if group_start == "__pair__":       # events with kind == "hist" stay with the preceding event (same key, fresh process)
+                if ev.get("kind") == "hist" and groups:
+                    groups[-1].append(l)
+                    continue
+                groups.append([l])
+                continue
             if group_start == "__each__" or ev.get("e") == group_start or not groups:
                 groups.append([])
             groups[-1].append(l)
+        groups = [g for g in groups if g]
         n_exec = len(groups)
         rejected = 0
         cur = trace_path
